@@ -10,6 +10,7 @@ from io import StringIO
 from importlib import import_module
 from types import MappingProxyType
 import sys
+import threading
 import warnings
 
 from pprint import isrecursive, isreadable, saferepr
@@ -382,6 +383,9 @@ def set_default_config(
     return new_defaults
 
 
+_pretty_repr_state = threading.local()
+
+
 def pretty_repr(instance):
     """
     A function assignable to the ``__repr__`` dunder method, so that
@@ -416,4 +420,16 @@ def pretty_repr(instance):
         )
         return object.__repr__(instance)
 
-    return pformat(instance)
+    # When the registered printer raises, the value is rendered with
+    # repr(), which for this type is this very function: answer the
+    # nested call with the default repr instead of recursing forever.
+    active = _pretty_repr_state.__dict__.setdefault('active', set())
+    key = id(instance)
+    if key in active:
+        return object.__repr__(instance)
+
+    active.add(key)
+    try:
+        return pformat(instance)
+    finally:
+        active.discard(key)
